@@ -70,14 +70,14 @@ CLAIMED = {
         technique="MIR must-pass-through with edge cuts (apply_records), sibling agreement of the two mark_* functions, index-field coverage table, crate-wide feeder scan, PutOptions->WAL data-flow agreement + gate-condition field coverage + per-chain feed guards",
         text="Partial: delete/supersede both store a non-Active status and reach remove_frame_from_indexes on every Ok path, which purges every in-memory index the "
              "search paths read; apply_records cannot push a superseding frame, nor consume a tombstone, without marking the old frame; every function that walks "
-             "toc.frames and feeds an index tests FrameStatus::Active; the PutOptions data fields persisted by put_internal are compared with those update_frame inherits. The condition gating rebuild_indexes after apply_records depends on IngestionDelta.mutated_frames; every iterator chain over toc.frames that feeds an index has an Active test of its own.",
+             "toc.frames and feeds an index tests FrameStatus::Active; the PutOptions data fields persisted by put_internal are compared with those update_frame inherits. The condition gating rebuild_indexes after apply_records depends on IngestionDelta.mutated_frames; every iterator chain over toc.frames that feeds an index has an Active test of its own. frame_by_uri's first lookup over toc.frames selects on Frame.status (the status-blind lookup is only a fallback).",
         note="Not decided: what search/timeline return (values). Known finding (open): update_frame does not inherit role/source_path/parent_id.",
         design_ref="DESIGN.md §4 C08"),
     "C11": dict(
         technique="flow- and field-sensitive def-use analysis of the candidate-filter variable in Memvid::search (found by type/use) + edge-cut reachability in get_replay_frame_ids + dead-parameter check in the three engines + edge-cut reachability of the replay step in Memvid::search",
         text="Partial, strong: after the replay stage the candidate filter can only narrow (every redefinition in the Some(existing) arm derives from existing), the replay "
              "ids reach the filter in both arms and all three engine paths receive and use that filter; get_replay_frame_ids pushes frame.id only past "
-             "(cut-off None | frame.id <= cut-off) and (None | frame.timestamp <= cut-off), never through a binary search on a non-id key. The engines are reachable without get_replay_frame_ids only through the edge establishing as_of_ts is None. The per-frame cut-off filter is recognised in loop form and in iterator-chain form (filter(is_none_or(|c| frame.x <= c))); the narrowing of the candidate filter in search is recognised inline and through a private narrowing helper.",
+             "(cut-off None | frame.id <= cut-off) and (None | frame.timestamp <= cut-off), never through a binary search on a non-id key. The engines are reachable without get_replay_frame_ids only through the edge establishing as_of_ts is None. The per-frame cut-off filter is recognised in loop form and in iterator-chain form (filter(is_none_or(|c| frame.x <= c))); the narrowing of the candidate filter in search is recognised inline and through a private narrowing helper. The Tantivy query planner tests the frame-filter parameter on every path to an Ok exit (the filter clause does not hang off the uri/scope chain).",
         note="Not decided: what the engines return beyond honouring the filter. The rule found a genuine defect (sketch-only fallback dropped the replay filter), repaired by fix commit 321ffd9.",
         design_ref="DESIGN.md §4 C11"),
     "C10": dict(
@@ -159,7 +159,7 @@ CLAIMED = {
         technique="stored-checksum use analysis: comparison of Frame.checksum with blake3(payload) must gate the serving path and verify(deep); edge-cut must-pass-through in read_toc and the track loaders + digest-coverage rule for the WAL record header + edge-cut reachability for the re-verification of a recovered TOC",
         text="Partial (checksum use): read_frame_payload_bytes returns Ok only past blake3(buf) == frame.checksum, verify(deep) reads every active payload through that comparison, "
              "raw readers that bypass it are reported; read_toc returns Ok only through footer decode, toc_len equality, hash_matches, verify_toc_prefix and Toc::decode; track loaders "
-             "deserialise only past their checksum comparison. The evidence lists stored index-manifest checksums that no code compares (information only). The WAL record digest must depend on every header field its reader acts on (sequence). A TOC whose first checksum verification failed is served by open_locked only after a later verify_checksum succeeded.",
+             "deserialise only past their checksum comparison. The evidence lists stored index-manifest checksums that no code compares (information only). The WAL record digest must depend on every header field its reader acts on (sequence). A TOC whose first checksum verification failed is served by open_locked only after a later verify_checksum succeeded. A checksum mismatch of a persisted track cannot reach an Ok exit of its loader (no silent empty track).",
         note="Not decided: detection of every single-byte corruption. Fix commit 34d4061 added the payload comparison; known finding (open): blob_reader streams Plain payloads unchecked. Known finding (open): the WAL record digest covers the payload only, so a flipped sequence byte of a checkpointed record makes open replay it.",
         design_ref="DESIGN.md §4 C20"),
     "C30": dict(
@@ -179,7 +179,7 @@ CLAIMED = {
         technique="interprocedural effect analysis: reachability of memory-file writes from 146 public entry points without passing a writability guard (guard-establishing callees summarised to a fixpoint over ~1480 functions) + call-graph exclusion for the snapshot path + drop-commit flag reachability from read paths",
         text="Partial (effect discipline): from every public Memvid self-method and read-only constructor no write to the memory file is reachable before the success edge of a "
              "writability guard; the read-only snapshot open cannot reach WAL replay, takes its TOC from the tail snapshot, opens the WAL read-only and is constructed read_only; "
-             "every writing EmbeddedWal method passes assert_writable. Drop commits only on handle state that no read-only constructor or read API can set.",
+             "every writing EmbeddedWal method passes assert_writable. Drop commits only on handle state that no read-only constructor or read API can set. Callers of locate_footer_window add the window start to every FooterSlice offset they keep as a file position.",
         note="Not decided: byte equality of the file before/after (runtime). Fix commit for the header rewrite on read-only open is recorded in known_findings. Untriaged candidates "
              "(reported, not verdicts): footer realignment reachable from search/open_read_only via init_tantivy; begin_batch writes without a guard.",
         design_ref="DESIGN.md §4 C18"),
@@ -192,7 +192,7 @@ CLAIMED = {
     "C22": dict(
         technique="two Engler-style checkers over the 900+ functions reachable from the untrusted-input entry points: explicit-assertion reachability (macro provenance) and range check of file-derived allocation sizes + guarded-subtraction checker for file-derived subtrahends + clamp check for loop-carried windows subtracted from a buffer length",
         text="Partial: no explicit assertion macro is reachable from open/verify/doctor/read entry points except reviewed sites; every allocation sized by a file-derived integer is "
-             "bounded by a constant, the file length, a clamp or a validator on its path. Every unsigned subtraction whose subtrahend is read from the file is dominated by a b <= a edge for the same a, clamped with min(), or the minuend was formed by adding that value. `len - w` with a loop-carried window w requires every definition of w to be clamped with min() or a w <= len edge.",
+             "bounded by a constant, the file length, a clamp or a validator on its path. Every unsigned subtraction whose subtrahend is read from the file is dominated by a b <= a edge for the same a, clamped with min(), or the minuend was formed by adding that value. `len - w` with a loop-carried window w requires every definition of w to be clamped with min() or a w <= len edge. An integer decoded from the file is multiplied only through checked/saturating arithmetic or under a dominating upper bound.",
         note="Not decided: panic-freedom of indexing/arithmetic sites, termination. The rule found a genuine defect (doctor debug_assert on pending WAL records), repaired by fix commit 706186b. "
              "Untriaged candidate: debug_assert_eq on vector lengths in simd (debug builds only).",
         design_ref="DESIGN.md §4 C22"),
@@ -243,7 +243,7 @@ CLAIMED = {
         technique="edge-cut reachability on the tantivy_dirty test in rebuild_indexes, data-dependence agreement between the bytes persisted and the bytes decoded into the installed in-memory index, sibling agreement of commit-side and reopen-side decoders + sibling agreement of range-end comparisons + loader-before-replay ordering + truncation-length flow",
         text="Partial: the incremental Tantivy arm is reachable only when no provisional instant-index entries exist; the in-memory lex/vec indexes a commit installs are decoded from the "
              "very artifact bytes it persists and whose length/checksum it records; the reopen path decodes with the same decoder at the manifest's offset/length; put_internal's instant "
-             "index marks tantivy_dirty. Every comparison of a range end (offset + length) with footer_offset / the file length uses end > limit to reject (sibling agreement, closures resolved through their call sites). open_locked loads every index before the WAL replay; rebuild_indexes never truncates below header.footer_offset.",
+             "index marks tantivy_dirty. Every comparison of a range end (offset + length) with footer_offset / the file length uses end > limit to reject (sibling agreement, closures resolved through their call sites). open_locked loads every index before the WAL replay; rebuild_indexes never truncates below header.footer_offset. The file offsets of every vector manifest collection in the TOC are moved when the embedded WAL grows (a handle that loads the index from disk finds it).",
         note="Not decided: equality of query answers before and after reopen (values); Tantivy's own persistence.",
         design_ref="DESIGN.md §4 C28"),
     "C29": dict(
